@@ -190,10 +190,17 @@ impl NetworkGraph {
     r is Ok && known is Some && known->Some_0.capacity_sats is Some ==> !(msg.node_id_1 == known->Some_0.node_one && msg.node_id_2 == known->Some_0.node_two),
     r is Ok && known is Some && known->Some_0.capacity_sats is None ==> *utxo_lookup is Some,
     (msg.node_id_1.0 < msg.node_id_2.0 && msg.bitcoin_key_1 != msg.bitcoin_key_2 && msg.chain_hash == self.chain_hash && known is None) ==> r is Ok,
+    // and nothing else is refused here: an announcement for a known, chain-validated id between a DIFFERENT pair of nodes (a reorg can put another channel at the same id) goes on to be looked up again, and one for a channel stored without a capacity goes on whenever the chain can be consulted
+    (msg.node_id_1.0 < msg.node_id_2.0 && msg.bitcoin_key_1 != msg.bitcoin_key_2 && msg.chain_hash == self.chain_hash && known is Some) ==>
+        (r is Ok <==> (if known->Some_0.capacity_sats is Some { !(msg.node_id_1 == known->Some_0.node_one && msg.node_id_2 == known->Some_0.node_two) } else { *utxo_lookup is Some })),
 //@mutant duplicate_of_a_validated_channel_reprocessed
     if msg.node_id_1 == chan.node_one && msg.node_id_2 == chan.node_two {
 //@with
     if msg.node_id_1 == chan.node_one && msg.node_id_2 == chan.node_one {
+//@mutant channel_between_other_nodes_at_a_known_id_dropped_as_a_duplicate
+    if msg.node_id_1 == chan.node_one && msg.node_id_2 == chan.node_two {
+//@with
+    if msg.node_id_1 == chan.node_one || msg.node_id_2 == chan.node_two {
 //@mutant announcement_for_another_chain_accepted
     if msg.chain_hash != self.chain_hash {
 //@with
